@@ -180,6 +180,25 @@ def name_unexplained(runs, verdicts, known_dev):
             verdicts[tid] = (verdicts[tid][0], verdicts[tid][1], v2[tid][2])
 
 
+FAMILY_REAL_DEVS = {"c16_softttl": ("coalesced_miss_returns_none",),
+                    "c16_tiered": ("tier_promotion_overwrites_newer_write",),
+                    "c16_pagecache": ("load_inserts_without_recheck", "load_overwrites_dirty_page")}
+
+
+def name_unexplained_family(mod, runs, verdicts, dev, label):
+    """Same as name_unexplained for the SoftTTL / multi-tier / page-cache trace specifications."""
+    real = FAMILY_REAL_DEVS[mod.__name__.rsplit(".", 1)[-1]]
+    if set(real) <= set(dev):
+        return
+    bad = [tid for tid, (v, pos, taint) in verdicts.items() if v.startswith("PROP:") and not taint]
+    if not bad:
+        return
+    v2, _, _ = mod.validate([runs.traces[tid - 1] for tid in bad], label, sorted(set(real) | set(dev)))
+    for tid in bad:
+        if tid in v2 and v2[tid][0] == verdicts[tid][0] and v2[tid][2]:
+            verdicts[tid] = (verdicts[tid][0], verdicts[tid][1], v2[tid][2])
+
+
 def judge(chk, runs, verdicts, drifts, known_dev=None):
     """Turn trace verdicts into violations / known findings / drift."""
     if known_dev is not None:
@@ -308,6 +327,7 @@ def replay_case(chk, data):
         runs = mod.Runs(chk)
         runs.execute(data["cfg"], data["prog"], "replay")
         verdicts, drifts, _ = mod.validate(runs.traces, "C16_replay", open_dev(mod.DEVIATIONS))
+        name_unexplained_family(mod, runs, verdicts, open_dev(mod.DEVIATIONS), "C16_replay_name")
         mod.judge(chk, runs, verdicts, drifts)
     return chk.finish()
 
@@ -531,16 +551,19 @@ def run(tier, seed, replay=None):
     chk.add_tlc(f"SoftTtlTrace batch Dev={soft_dev}", sres, note="trace validation, SoftTTLCache")
     tv, td, tres = tier_val.result()
     chk.add_tlc(f"TieredTrace batch Dev={tier_dev}", tres, note="trace validation, MultiTierCache")
+    name_unexplained_family(tiered, tier_runs, tv, tier_dev, "C16_mt_name")
     tiered.judge(chk, tier_runs, tv, td)
     chk.extra["multi_tier_verdicts"] = {v: sum(1 for x in tv.values() if x[0] == v) for v in {x[0] for x in tv.values()}}
     pv, pd, pres = pc_val.result()
     chk.add_tlc(f"PageCacheTrace batch Dev={pc_dev}", pres, note="trace validation, PageCache")
+    name_unexplained_family(pagec, pc_runs, pv, pc_dev, "C16_pc_name")
     pagec.judge(chk, pc_runs, pv, pd)
     chk.extra["page_cache_verdicts"] = {v: sum(1 for x in pv.values() if x[0] == v) for v in {x[0] for x in pv.values()}}
     chk.extra["page_cache_runs_that_raised_KeyError"] = pc_runs.raised
     chk.impl_traces = len(runs.traces) + len(soft_runs.traces) + len(tier_runs.traces) + len(pc_runs.traces)
     _t(chk, "trace validation done")
     judge(chk, runs, verdicts, drifts, known_dev)
+    name_unexplained_family(soft, soft_runs, sv, soft_dev, "C16_st_name")
     soft.judge(chk, soft_runs, sv, sd)
     chk.extra["soft_ttl_verdicts"] = {v: sum(1 for x in sv.values() if x[0] == v) for v in {x[0] for x in sv.values()}}
     by = {}
